@@ -3,6 +3,8 @@ import VrpModel.ArcBased
 import VrpModel.PathBased
 import VrpModel.SeqBased
 import VrpProofs.Lemmas.QuboBridge
+import VrpProofs.Lemmas.Program
+import VrpProofs.Props.C15
 
 /-!
 # C02 — Penalty QUBO equals objective plus weighted squared constraint violation
@@ -74,5 +76,141 @@ theorem getQubo_energy_field (n m : ℕ) (A : ℕ → ℕ → K) (b : ℕ → K)
   rw [hsplit, G.diag_sum n _ x hx, G.diag_sum n c x hx, hAA, hAb, hpen]
   unfold quboK objective
   cases feas <;> simp <;> ring
+
+
+/-! ## model-level statements -/
+
+/-- **model-level energy identity**: for every program data, every ρ (either sign), both modes and
+    every binary `x`: `xᵀQx + k = objective(x) + ρ (|Ax−b|² + xᵀRx)` (objective absent in feasibility mode) -/
+theorem getQubo_energy (d : MPData) (rho : ℚ) (feas : Bool) (x : Vec) (hx : IsBin d.n x) :
+    quad d.n (d.quboQ rho feas) x + d.quboK rho
+      = (if feas then 0 else d.objective x) + rho * d.penalty x := by
+  have h := getQubo_energy_field d.n d.m d.Amat d.bvec d.Rmat d.Qmat d.cvec rho feas x hx.idem
+  have e1 : d.quboQ rho feas = quboQ d.n d.m d.Amat d.bvec d.Rmat d.Qmat d.cvec rho feas := by
+    funext i j; simp [MPData.quboQ, quboQ, sumTo_eq]
+  have e2 : d.quboK rho = quboK d.m d.bvec rho := by simp [MPData.quboK, quboK, sumTo_eq]
+  have e3 : d.objective x = objective d.n d.Qmat d.cvec x := by
+    simp [MPData.objective, objective, quad_eq, dot_eq]
+  have e4 : d.penalty x = penalty d.n d.m d.Amat d.bvec d.Rmat x := by
+    simp [MPData.penalty, penalty, quad_eq, sumTo_eq, MPData.rowVal, pow_two]
+  rw [e1, e2, e3, e4, quad_eq]; exact h
+
+/-- pools built through `add_route` (see C06) satisfy this well-formedness -/
+def PathWF (P : PathInst) : Prop :=
+  P.costs.length = P.visited.length ∧ P.routes.length = P.costs.length ∧
+  ∀ vs ∈ P.visited, ∀ k ∈ vs, k < P.g.nodes.length
+
+/-- every arc-based variable points at existing nodes -/
+theorem arc_vars_dest_lt (I : ArcInst) (hg : C15.Inv I.g) {u : ATup} (hu : u ∈ I.vars) :
+    u.1 < I.g.nodes.length ∧ u.2.2.1 < I.g.nodes.length := by
+  unfold ArcInst.vars at hu
+  simp only [List.mem_flatMap, List.mem_filterMap] at hu
+  obtain ⟨e, he, s, _, t, _, ht⟩ := hu
+  obtain ⟨ni, nj, h1, h2, _⟩ := hg.filed e he
+  split_ifs at ht
+  simp only [Option.some.injEq] at ht
+  subst ht
+  exact ⟨(List.getElem?_eq_some_iff.mp h1).1, (List.getElem?_eq_some_iff.mp h2).1⟩
+
+/-- consistent dimensions, arc-based: `A` is `len b × n`, `c` has length `n`, all indices in range
+    (this is what makes `get_qubo` total on every instance; with the pinned shape inference it fails,
+    see `inferShape_drops_trailing_row`) -/
+theorem arc_wellShaped (I : ArcInst) (hg : C15.Inv I.g) : I.data.wellShaped = true := by
+  unfold MPData.wellShaped ArcInst.data
+  simp only [List.length_append, List.length_replicate, List.length_map, decide_true, Bool.true_and,
+    List.all_nil, Bool.and_true, List.all_eq_true, List.mem_append, List.mem_flatMap,
+    List.mem_filterMap, Bool.and_eq_true, decide_eq_true_eq]
+  rintro e (⟨⟨col, u⟩, hz, he⟩ | ⟨⟨col, u⟩, hz, he⟩)
+  · obtain ⟨hc, hu⟩ := mem_range_zip hz
+    simp only at hc hu he
+    rcases he with he | he
+    · split at he
+      · rename_i r hr
+        simp only [List.mem_singleton] at he
+        subst he
+        have := idxOf?_lt hr
+        simp only; omega
+      · simp at he
+    · split at he
+      · rename_i r hr
+        simp only [List.mem_singleton] at he
+        subst he
+        have := idxOf?_lt hr
+        simp only; omega
+      · simp at he
+  · obtain ⟨hc, hu⟩ := mem_range_zip hz
+    simp only at hc hu he
+    have := (arc_vars_dest_lt I hg hu).2
+    split_ifs at he with h0
+    simp only [Option.some.injEq] at he
+    subst he
+    simp only; omega
+
+theorem path_wellShaped (P : PathInst) (hwf : PathWF P) : P.data.wellShaped = true := by
+  obtain ⟨h1, h2, h3⟩ := hwf
+  unfold MPData.wellShaped PathInst.data
+  simp only [List.length_replicate, decide_true, Bool.true_and, List.all_nil, Bool.and_true,
+    List.all_eq_true, List.mem_flatMap, List.mem_filterMap, Bool.and_eq_true, decide_eq_true_eq]
+  rintro e ⟨⟨col, vs⟩, hz, k, hk, he⟩
+  obtain ⟨hc, hvs⟩ := mem_range_zip hz
+  simp only at hc hvs
+  rw [List.mem_eraseDups] at hk
+  have := h3 vs hvs k hk
+  split_ifs at he with h0
+  simp only [Option.some.injEq] at he
+  subst he
+  simp only
+  omega
+
+theorem seq_wellShaped (I : SeqInst) (d : MPData) (h : I.data = some d) : d.wellShaped = true := by
+  unfold SeqInst.data at h
+  cases hqc : I.quadCons with
+  | none => simp [hqc] at h
+  | some R =>
+    simp only [hqc, Option.some.injEq] at h
+    subst h
+    have hR : ∀ e ∈ R, e.1 < I.vars.length ∧ e.2 < I.vars.length := by
+      obtain ⟨l, hq, _⟩ := quadCons_eq I
+      rw [hq] at hqc
+      exact qstep_foldl_all I _ l (fun t _ e he => quadLogic_some he) [] R (by simp) hqc
+    unfold MPData.wellShaped
+    simp only [Bool.and_eq_true, decide_eq_true_eq, List.all_eq_true]
+    refine ⟨⟨⟨⟨trivial, ?_⟩, ?_⟩, hR⟩, ?_⟩
+    · simp [SeqInst.objective]
+    · intro e he
+      simp only [SeqInst.linCons, List.mem_flatMap, List.mem_filterMap, Option.map_eq_some_iff] at he
+      obtain ⟨⟨r, tuples⟩, hz, u, _, k, hk, rfl⟩ := he
+      obtain ⟨hr, _⟩ := mem_range_zip hz
+      simp only [SeqInst.linCons, List.length_map]
+      exact ⟨by simpa using hr, (seq_varIndex_some hk).1⟩
+    · intro e he
+      simp only [SeqInst.objective, List.mem_filterMap] at he
+      obtain ⟨⟨v, p, ni, nj, coeff⟩, _, he⟩ := he
+      simp only at he
+      split at he
+      · rename_i k1 k2 h1 h2
+        simp only [Option.some.injEq] at he
+        subst he
+        exact ⟨(seq_varIndex_some h1).1, (seq_varIndex_some h2).1⟩
+      · simp at he
+
+/-- sequence-based: with at least three positions none of the code's consistency assertions can fail,
+    so the data (and hence the QUBO) exist for every graph, vehicle count and strictness -/
+theorem seq_data_total (I : SeqInst) (hL : 3 ≤ I.L) : ∃ d, I.data = some d := by
+  obtain ⟨l, hq, hl⟩ := quadCons_eq I
+  obtain ⟨R, hR⟩ := qstep_foldl_total I l (fun t ht => by
+    obtain ⟨_, h2, h3⟩ := hl t ht
+    exact quadLogic_ne_none I hL _ _ _ _ h2 h3) []
+  unfold SeqInst.data
+  rw [hq, hR]
+  exact ⟨_, rfl⟩
+
+/-- regression of the model of the pinned rule: scipy's shape inference drops a trailing empty row
+    (witness: 3 rows expected, entries only in rows 0 and 1) -/
+theorem inferShape_drops_trailing_row :
+    inferShape [(0, 0, 1), (1, 1, -1)] = some (2, 2) ∧ inferShape [] = none := by
+  constructor
+  · simp [inferShape]
+  · rfl
 
 end Vrp.C02
